@@ -207,3 +207,107 @@ func TestUnionTable(t *testing.T) {
 	}
 	ev.R.Space("attribute n on a union of two entity types: {required, optional, absent} x {required, optional, absent, other type} x type-name order x branch order x {read, guarded read, read twice} x mode", n)
 }
+
+// TestStaticTruthTable: expressions whose truth value a validator may decide from the schema alone (equality and
+// inequality of variables and literals of related / unrelated entity types, `is`, `in` between entity types that can or
+// cannot be related, action tests) used as the guard of something ill-typed, in every position where a statically
+// known value lets the validator skip a branch. The oracle is the evaluation on conforming worlds.
+func TestStaticTruthTable(t *testing.T) {
+	if !ev.First() {
+		return
+	}
+	pr, rsrc, act, cx := ir.Var("principal"), ir.Var("resource"), ir.Var("action"), ir.Var("context")
+	rs := &sch.RSchema{
+		Entities: []sch.REntity{{Name: "U", Parents: []string{"G"}, Attrs: []sch.RAttr{{Name: "n", T: lng(), Opt: true}}}, {Name: "G"}, {Name: "D", Attrs: []sch.RAttr{{Name: "owner", T: sch.RType{K: ir.KEntity, Ent: "U"}}}}},
+		Actions: []sch.RAction{
+			{Type: "Action", ID: "view", Applies: true, Principals: []string{"U"}, Resources: []string{"D"}, Context: []sch.RAttr{{Name: "c", T: sch.RType{K: ir.KBool}}}},
+			{Type: "Action", ID: "edit", Applies: true, Principals: []string{"U"}, Resources: []string{"D"}, Context: []sch.RAttr{{Name: "c", T: sch.RType{K: ir.KBool}}}},
+		},
+	}
+	s := plainIR(rs)
+	U, G, D := func(id string) *ir.Expr { return ir.Lit(ir.Ent("U", id)) }, func(id string) *ir.Expr { return ir.Lit(ir.Ent("G", id)) }, func(id string) *ir.Expr { return ir.Lit(ir.Ent("D", id)) }
+	view := ir.Lit(ir.Ent("Action", "view"))
+	facts := []*ir.Expr{
+		ir.Bin(ir.OpEq, pr, rsrc), ir.Bin(ir.OpNe, pr, rsrc), ir.Bin(ir.OpEq, pr, pr), ir.Bin(ir.OpNe, pr, pr),
+		ir.Bin(ir.OpEq, pr, U("u")), ir.Bin(ir.OpNe, pr, U("u")), ir.Bin(ir.OpEq, pr, D("d")), ir.Bin(ir.OpNe, pr, D("d")),
+		ir.Bin(ir.OpEq, U("u"), U("u")), ir.Bin(ir.OpNe, U("u"), U("u")), ir.Bin(ir.OpEq, U("u"), U("v")), ir.Bin(ir.OpNe, U("u"), U("v")), ir.Bin(ir.OpNe, U("u"), G("u")), ir.Bin(ir.OpEq, U("u"), G("u")),
+		ir.Bin(ir.OpEq, ir.Access(rsrc, "owner"), pr), ir.Bin(ir.OpNe, ir.Access(rsrc, "owner"), pr), ir.Bin(ir.OpNe, ir.Access(rsrc, "owner"), rsrc),
+		ir.Is(pr, "U"), ir.Is(pr, "D"), ir.Is(rsrc, "D"), ir.Is(rsrc, "G"), ir.IsIn(pr, "U", G("g")), ir.IsIn(pr, "D", G("g")),
+		ir.Bin(ir.OpIn, pr, G("g")), ir.Bin(ir.OpIn, pr, D("d")), ir.Bin(ir.OpIn, pr, pr), ir.Bin(ir.OpIn, rsrc, G("g")), ir.Bin(ir.OpIn, pr, ir.SetE(D("d"), G("g"))), ir.Bin(ir.OpIn, pr, ir.SetE()),
+		ir.Bin(ir.OpEq, act, view), ir.Bin(ir.OpNe, act, view), ir.Bin(ir.OpIn, act, view), ir.Bin(ir.OpIn, act, ir.SetE(view)), ir.Bin(ir.OpEq, act, ir.Lit(ir.Ent("Action", "nosuch"))), ir.Bin(ir.OpNe, act, ir.Lit(ir.Ent("Action", "nosuch"))),
+		ir.Bin(ir.OpEq, ir.Lit(ir.Long(1)), ir.Lit(ir.Long(1))), ir.Bin(ir.OpNe, ir.Lit(ir.Long(1)), ir.Lit(ir.Long(1))), ir.Bin(ir.OpNe, ir.Lit(ir.Long(1)), ir.Lit(ir.Long(2))),
+		ir.Has(pr, "n"), ir.Has(pr, "zz"), ir.Has(cx, "c"), ir.Has(cx, "zz"), ir.Has(ir.Lit(ir.Rec(ir.F("a", ir.Long(1)))), "a"), ir.Has(ir.Lit(ir.Rec(ir.F("a", ir.Long(1)))), "b"),
+		ir.Access(cx, "c"),
+	}
+	bads := []*ir.Expr{
+		ir.Bin(ir.OpEq, ir.Bin(ir.OpAdd, ir.Lit(ir.Long(1)), ir.Lit(ir.Str("a"))), ir.Lit(ir.Long(2))),
+		ir.Bin(ir.OpLt, ir.Access(pr, "n"), ir.Lit(ir.Long(3))), // unguarded optional attribute
+		ir.Un(ir.OpNot, ir.Lit(ir.Long(1))),
+	}
+	var worlds []gen.World
+	for _, c := range []bool{true, false} {
+		for _, a := range []string{"view", "edit"} {
+			for _, owner := range []string{"u", "v"} {
+				worlds = append(worlds, gen.World{
+					Store: ir.Store{{UID: ir.Ent("U", "u"), Parents: []ir.Value{ir.Ent("G", "g")}}, {UID: ir.Ent("U", "v")}, {UID: ir.Ent("G", "g")},
+						{UID: ir.Ent("D", "d"), Attrs: []ir.Field{ir.F("owner", ir.Ent("U", owner))}}, {UID: ir.Ent("Action", "view")}, {UID: ir.Ent("Action", "edit")}},
+					Req: ir.Request{Principal: ir.Ent("U", "u"), Action: ir.Ent("Action", a), Resource: ir.Ent("D", "d"), Context: ir.Rec(ir.F("c", ir.Bool(c)))},
+				})
+			}
+		}
+	}
+	n, accepted := 0, 0
+	for fi, f := range facts {
+		for bi, bad := range bads {
+			for shape := 0; shape < 8; shape++ {
+				nf := ir.Un(ir.OpNot, f)
+				var body *ir.Expr
+				switch shape {
+				case 0:
+					body = ir.Bin(ir.OpAnd, f, bad)
+				case 1:
+					body = ir.Bin(ir.OpAnd, nf, bad)
+				case 2:
+					body = ir.Bin(ir.OpOr, f, bad)
+				case 3:
+					body = ir.Bin(ir.OpOr, nf, bad)
+				case 4:
+					body = ir.If(f, bad, ir.Lit(ir.Bool(true)))
+				case 5:
+					body = ir.If(f, ir.Lit(ir.Bool(true)), bad)
+				case 6:
+					body = ir.Bin(ir.OpAnd, ir.Bin(ir.OpOr, f, ir.Access(cx, "c")), bad)
+				default:
+					body = ir.Bin(ir.OpOr, ir.Bin(ir.OpAnd, f, ir.Access(cx, "c")), bad)
+				}
+				for _, strict := range []bool{true, false} {
+					n++
+					acc := false
+					for wi := range worlds {
+						c := &Case{R: rs, Schema: s, Policy: when(body), Strict: strict, World: worlds[wi]}
+						o := check(c)
+						if o.status == "rejected" {
+							break
+						}
+						acc = true
+						switch o.status {
+						case "violation":
+							ev.R.Violation(o.sub, c, o.detail)
+							t.Errorf("C15/%s: static-truth table (fact %d, bad %d, shape %d, %s): %s", o.sub, fi, bi, shape, modeName(strict), o.detail)
+							return
+						case "broken", "conform-reject", "eval-disagree":
+							ev.R.Broken(fmt.Sprintf("C15 static-truth table: %s: %s", o.status, o.detail))
+							return
+						}
+					}
+					if acc {
+						accepted++
+					}
+					ev.R.Case(ir.Hash([]any{"static-truth", fi, bi, shape, strict}), acc, "static-truth-table")
+				}
+			}
+		}
+	}
+	ev.R.Label("static-truth-table:accepted", int64(accepted))
+	ev.R.Space("statically decidable facts (==, !=, is, in, action tests, has) x ill-typed operand x 8 guard positions x mode, evaluated on 8 worlds when accepted", n)
+}
